@@ -416,6 +416,12 @@ fn run_generic<F: NttFriendlyFieldElement + FieldBig>(case: &Case, obs: &mut Obs
                     obs.fail(format!("{name}-max-size-refused"), format!("ntt refused the maximum size 2^20: {e}"));
                     return;
                 }
+                // and 2^19 itself is the largest size the shifted transform supports
+                n_eval += 1;
+                if let Err(e) = call!("ntt_set_s(2^19)", h::ntt_set_s(&mut big[..1 << 19], &inp, 1 << 19)) {
+                    obs.fail(format!("{name}-set-s-max-size-refused"), format!("ntt_set_s refused its maximum size 2^19: {e}"));
+                    return;
+                }
                 obs.label("size-limit-boundaries");
             }
             // double_evaluations: wrong output length, non power of two
